@@ -36,7 +36,22 @@ P = "{http://schemas.openxmlformats.org/presentationml/2006/main}"
 
 
 def _memo(deck):
-    return deck.memo.setdefault("c17", {"cxn": {}})
+    return deck.memo.setdefault("c17", {"cxn": {}, "clean": {}})
+
+
+def _gk(sl, g):
+    return "%d|%d" % (sl.slide_id, g.shape_id)
+
+
+def _mark(deck, sl, chain, clean):
+    """Groups that were brought onto their member box by an addition ("clean") stay there durably; a group the caller moved, or whose
+    member group was moved, or that PowerPoint wrote elsewhere, is not required to sit on its box until the next addition."""
+    m = _memo(deck).setdefault("clean", {})
+    for g in chain:
+        if clean:
+            m[_gk(sl, g)] = True
+        else:
+            m.pop(_gk(sl, g), None)
 
 
 def _ends(c):
@@ -195,6 +210,12 @@ def verify_group(w, sl, grp, when, depth):
     w.stats.hit("c17_groups_verified")
 
 
+def _on_box(grp):
+    geom = (int(grp.left), int(grp.top), int(grp.width), int(grp.height))
+    members = list(grp.shapes)
+    return geom in {_bbox(members), _bbox(members, skip_empty_groups=True)}
+
+
 def _descend(sl, path):
     """Follow `path` through nested groups; returns (chain of GroupShape, deepest shapes collection)."""
     chain = []
@@ -250,12 +271,60 @@ def _group_add(w, deck, a):
     elif kind == "freeform":
         _do_freeform(w, shapes, a["ff"], check=True)
     else:
+        # an EMPTY group has no extent: the library does not recalculate on adding one, so groups that were on their member box stay on
+        # it and the others are left alone (only groups that were on their box beforehand are judged)
+        geo = lambda g: (int(g.left), int(g.top), int(g.width), int(g.height))  # noqa: E731
+        before = [(geo(g), _on_box(g)) for g in chain]
         shapes.add_group_shape()
+        for d, g in reversed(list(enumerate(chain))):
+            gb, ok_ = before[d]
+            if ok_ and geo(g) != gb:        # either untouched (the new member has no extent) or recalculated onto the box
+                verify_group(w, sl, g, "after-add-%s" % kind, d + 1)
+            elif not ok_ and geo(g) != gb:
+                verify_group(w, sl, g, "after-add-%s" % kind, d + 1)
+            if not _on_box(g):
+                _mark(deck, sl, [g], False)
+        w.stats.hit("c17_group_adds")
+        return
     for d, g in reversed(list(enumerate(chain))):
         verify_group(w, sl, g, "after-add-%s" % kind, d + 1)
+    _mark(deck, sl, chain, True)
     w.stats.hit("c17_group_adds")
     if len(chain) >= 3:
         w.stats.hit("c17_group_adds_depth3plus")
+
+
+def g_group_move(r):
+    return dict(O.g_sl(r), path=[r.randint(0, 2) for _ in range(r.randint(1, 4))], attr=r.choice(["left", "top", "width", "height"]), v=g_pt(r),
+                inside=r.random() < 0.7, img=None)
+
+
+@O.op("c17.group_move", "c17", weight=2.0)
+@O.gen(g_group_move)
+def _group_move(w, deck, a):
+    """The caller moves or resizes a group through its public setters (legal; the property speaks about what the next ADDITION
+    restores), then - most of the time - adds a member that lies INSIDE the present member box, so the box itself does not change
+    and only the recalculation can bring the group (and every ancestor) back onto it."""
+    from pptx.enum.shapes import MSO_SHAPE
+    sl = O.nav_slide(w, deck, a)
+    chain, shapes = _descend(sl, a["path"])
+    if not chain:
+        raise O.Skip("no group")
+    g = chain[-1]
+    setattr(g, a["attr"], max(0, a["v"]) if a["attr"] in ("width", "height") else a["v"])
+    _mark(deck, sl, chain, False)
+    w.stats.hit("c17_group_moved")
+    if sum(1 for _ in O.walk_shapes(sl.shapes)) >= 40:
+        return
+    if a["inside"]:
+        bx, by, bw, bh = _bbox(list(g.shapes))
+        if not list(g.shapes):
+            return
+        shapes.add_shape(MSO_SHAPE.RECTANGLE, bx + bw // 4, by + bh // 4, bw // 2, bh // 2)
+        w.stats.hit("c17_add_inside_member_box_after_move")
+        for d, gg in reversed(list(enumerate(chain))):
+            verify_group(w, sl, gg, "after-add-inside-box", d + 1)
+        _mark(deck, sl, chain, True)
 
 
 # ---- freeforms -----------------------------------------------------------------------------------------------------------
@@ -382,7 +451,8 @@ class GeomOracle(Oracle):
                 for s in shapes:
                     if type(s).__name__ == "GroupShape":
                         walk(s.shapes, d + 1)
-                        verify_group(w, sl, s, when, d)
+                        if _gk(sl, s) in m.get("clean", {}):
+                            verify_group(w, sl, s, when, d)
             walk(sl.shapes, 1)
 
     def on_checkpoint(self, w, deck, image, ev):
@@ -408,7 +478,7 @@ def gen_trace(seed: int, tier: str) -> dict:
                                     restart=0.03, observe=0.02, jump=0.0, fork=0.0, warmup=False)
     pre = [{"op": "add_slide", "layout": 6, "dt": 1.0}]
     return {"property": ID, "seed": seed, "tier": tier, "config": {"max_slides": 4},
-            "start": [{"deck": S("start").choice(["default", "default", "f-shp-groupshape.pptx", "f-shp-connector-props.pptx"])}],
+            "start": [{"deck": S("start").choice(["default", "default", "f-shp-groupshape.pptx", "f-shp-connector-props.pptx", "f-shp-common-props.pptx", "f-shp-shapes.pptx"])}],
             "events": pre + events}
 
 
@@ -444,4 +514,21 @@ def pinned_traces(tier):
         evs.append(dict(base, op="c17.group_add", slide=0, path=path, kind=kind, x=x, y=x // 2))
     evs += [{"op": "checkpoint", "sink": "seekable"}, {"op": "restart"}]
     out.append({"property": ID, "seed": "upward-recursion", "tier": "pinned", "config": {"pinned": True}, "start": [{"deck": "default"}], "events": evs})
+    # groups whose position differs from their member box (moved by the caller, or authored so by PowerPoint), then an addition inside the box
+    evs = [{"op": "add_slide", "layout": 6}]
+    for path, kind, x in (([], "subgroup", 0), ([0], "shape", 1000), ([0], "subgroup", 0), ([0, 0], "shape", 200000), ([0, 0], "textbox", 900000)):
+        evs.append(dict(base, op="c17.group_add", slide=0, path=path, kind=kind, x=x, y=x // 2))
+    for attr, v in (("left", 5000000), ("top", -300), ("width", 10), ("height", 7000000)):
+        evs.append({"op": "c17.group_move", "slide": 0, "path": [0, 0], "attr": attr, "v": v, "inside": True})
+        evs.append({"op": "c17.group_move", "slide": 0, "path": [0], "attr": attr, "v": v + 11, "inside": True})
+    evs += [{"op": "checkpoint", "sink": "seekable"}, {"op": "restart"}]
+    out.append({"property": ID, "seed": "moved-group-then-add-inside-box", "tier": "pinned", "config": {"pinned": True}, "start": [{"deck": "default"}], "events": evs})
+    for dk in ("f-shp-common-props.pptx", "f-shp-groupshape.pptx", "f-shp-shapes.pptx"):
+        evs = []
+        for sl_ in range(3):
+            for pth in ([0], [1], [0, 0]):
+                evs.append({"op": "c17.group_move", "slide": sl_, "path": pth, "attr": "left", "v": 123456, "inside": True})
+                evs.append(dict(base, op="c17.group_add", slide=sl_, path=pth, kind="shape", x=2000000, y=2000000, cx=10, cy=10))
+        evs += [{"op": "checkpoint", "sink": "seekable"}, {"op": "restart"}]
+        out.append({"property": ID, "seed": "authored-groups-%s" % dk, "tier": "pinned", "config": {"pinned": True}, "start": [{"deck": dk}], "events": evs})
     return out
